@@ -42,7 +42,43 @@ def _model_dict(m):
     return out
 
 
+def _in_child(fn, args, hard_s):
+    """run fn(*args) in a forked child with a hard wall-clock limit (solver timeouts are not always honoured)"""
+    ctx = mp.get_context("fork")
+    rd, wr = ctx.Pipe(duplex=False)
+
+    def child():
+        try:
+            wr.send(fn(*args))
+        except BaseException as e:  # noqa
+            try:
+                wr.send(("unknown", f"child error {e!r}"[:200], 0.0))
+            except Exception:
+                pass
+    t0 = time.time()
+    pr = ctx.Process(target=child)
+    pr.start()
+    wr.close()
+    res = None
+    try:
+        if rd.poll(hard_s):
+            res = rd.recv()
+    except (EOFError, OSError):
+        res = None
+    if pr.is_alive():
+        pr.kill()
+    pr.join()
+    rd.close()
+    if res is None:
+        return "unknown", "hard timeout (solver did not honour its own limit)", time.time() - t0
+    return res
+
+
 def _z3_try(smt2, timeout_ms, tactic=None, seed=0):
+    return _in_child(_z3_try_inproc, (smt2, timeout_ms, tactic), timeout_ms / 1000.0 + 3)
+
+
+def _z3_try_inproc(smt2, timeout_ms, tactic=None, seed=0):
     t0 = time.time()
     ctx = z3.Context()
     try:
